@@ -11,7 +11,7 @@
    exhaustive scan.                                                                              *)
 From PF Require Import Trees.Octree Trees.Bvh Trees.OctreeProofs Trees.BvhProofs Trees.ElemProofs.
 From PF Require Check.C16 Trees.CheckProofs.
-From Coq Require Import Permutation.
+From Coq Require Import Permutation QArith.
 Open Scope Z_scope.
 
 (* The invariant of the tree newOctree builds: every element occurs exactly once (the tree's elements
@@ -70,6 +70,34 @@ Theorem ray_eq_brute : forall depth boxes t ry r,
 Proof. exact ray_eq_brute_thm. Qed.
 Print Assumptions ray_eq_brute.
 
+(* What the slab test MEANS (independent of the code's sequential min/max updates): for a well-formed
+   box, AABB.IntersectsRayInRange(ray, tmin, tmax) is true exactly when some parameter t with
+   tmin < t < tmax puts origin + t*direction strictly inside the kEpsilon-inflated box on every axis with
+   a non-zero direction component, and the origin is inside the closed inflated slab on every axis whose
+   direction component is an exact zero of either sign (ray_crosses / axis_in, Trees/OctreeProofs.v). *)
+Theorem ray_spec_iff_slab : forall b ry r, wf_box b -> (slab b ry r = true <-> ray_crosses b ry r).
+Proof. exact slab_geo. Qed.
+Print Assumptions ray_spec_iff_slab.
+
+(* the direct oracle's interval formulation (Check/C16.v ray_spec) means the same, hence equals the slab test *)
+Theorem oracle_ray_spec_iff_crosses : forall b ry r, Check.C16.ray_spec b ry r = true <-> ray_crosses b ry r.
+Proof. exact Trees.CheckProofs.ray_spec_geo. Qed.
+Print Assumptions oracle_ray_spec_iff_crosses.
+
+Theorem oracle_ray_spec_eq_slab : forall b ry r, wf_box b -> Check.C16.ray_spec b ry r = slab b ry r.
+Proof. exact Trees.CheckProofs.ray_spec_eq_slab. Qed.
+Print Assumptions oracle_ray_spec_eq_slab.
+
+(* ElementsIntersectingRay against the geometric specification, not against the code's own test:
+   exactly the elements whose box the ray crosses, each once *)
+Theorem ray_eq_brute_geometric : forall depth boxes t ry r,
+  Forall wf_box boxes -> new_octree depth boxes = Some t ->
+  NoDup (ray_hits t ry r) /\
+  forall i, In i (ray_hits t ry r) <->
+            (i < length boxes)%nat /\ ray_crosses (nth i boxes zero_pt_box) ry r.
+Proof. exact ray_hits_geo. Qed.
+Print Assumptions ray_eq_brute_geometric.
+
 (* TraverseIntersectingRay with an iterator that narrows the range (nearest-hit search): for every
    iterator that only shrinks the range and never cuts into rl, every visited element passes the
    bounds test for the caller's range and every element that passes it for rl is visited *)
@@ -103,6 +131,51 @@ Theorem closest_in_box_suffices : forall b q c, inb c b = true -> boxdist2 b q <
 Proof. exact boxdist2_le_in. Qed.
 Print Assumptions closest_in_box_suffices.
 
+(* ClosestPoint with EXACT rational element distances kq (no integer keys, no scale given): whenever no
+   element is nearer than its box, there is a common integer scale at which the model's search runs, and
+   it returns an element of minimal exact distance together with that element's own point *)
+Theorem closest_eq_brute_exact : forall (P : Type) (cpt : nat -> P) (kq : nat -> Q) q depth boxes t,
+  Forall wf_box boxes ->
+  (forall i, (i < length boxes)%nat -> (zq (boxdist2 (nth i boxes zero_pt_box) q) <= kq i)%Q) ->
+  new_octree depth boxes = Some t ->
+  exists (K : Z) (ekey : nat -> Z),
+    0 < K /\ (forall i, (i < length boxes)%nat -> (inject_Z (ekey i) == inject_Z K * kq i)%Q) /\
+    (exists r, closest P ekey cpt K q t = Some r) /\
+    forall i k p, closest P ekey cpt K q t = Some (i, k, p) ->
+      (i < length boxes)%nat /\ p = cpt i /\ forall j, (j < length boxes)%nat -> (kq i <= kq j)%Q.
+Proof. exact closest_eq_brute_exact_thm. Qed.
+Print Assumptions closest_eq_brute_exact.
+
+(* SEGMENT elements, exact rational model of Line3D.ClosestPointOnLine (seg_closest: parameter
+   (p-a).(b-a)/|b-a|^2 clamped to [0,1]): no hypothesis on the elements is left — for every list of
+   segments (also zero-length ones), every depth and every query the tree returns a segment whose exact
+   closest point is nearest, and that point *)
+Theorem closest_eq_brute_segments : forall (segs : list (pt * pt)) q depth t,
+  let boxes := map (fun s => seg_box (fst s) (snd s)) segs in
+  let cpt := fun i => seg_closest (fst (seg_of segs i)) (snd (seg_of segs i)) q in
+  let kq := fun i => qdist2 (cpt i) q in
+  new_octree depth boxes = Some t ->
+  exists (K : Z) (ekey : nat -> Z),
+    0 < K /\ (forall i, (i < length segs)%nat -> (inject_Z (ekey i) == inject_Z K * kq i)%Q) /\
+    (exists r, closest qpt ekey cpt K q t = Some r) /\
+    forall i k p, closest qpt ekey cpt K q t = Some (i, k, p) ->
+      (i < length segs)%nat /\ p = cpt i /\ forall j, (j < length segs)%nat -> (kq i <= kq j)%Q.
+Proof. exact closest_eq_brute_segments_thm. Qed.
+Print Assumptions closest_eq_brute_segments.
+
+Theorem seg_closest_no_nearer_than_box : forall a b p,
+  (zq (boxdist2 (seg_box a b) p) <= qdist2 (seg_closest a b p) p)%Q.
+Proof. exact seg_closest_far. Qed.
+Print Assumptions seg_closest_no_nearer_than_box.
+
+(* TRIANGLE elements: partial.  Proved: the edge branch is a segment (above) and the projection branch
+   for projections that fall on the integer grid (tri_closest_in_bbox below).  Not proved: the same for
+   the rational projection p - ((p-a).n/n.n) n in general (the statement scales to the integer one by
+   n.n, the port was not finished); the harness re-checks "box distance <= element distance" on Go's own
+   numbers for every triangle query instead.  Full statement wanted:
+     forall triangles tris q depth t, new_octree depth (map tri_box tris) = Some t -> [as for segments
+     with cpt i := exact scopedTri.ClosestPoint].  *)
+
 (* instances.  Points: the point itself.  Segments: every coordinate of ClosestPointOnLine lies
    between the end points' coordinates, for every parameter.  Triangles: the projection accepted by the
    repaired PointInSide (three sign tests, 26a68bd) lies in the triangle's box (else the answer is a
@@ -116,11 +189,11 @@ Theorem seg_closest_in_box : forall a b t : Q,
 Proof. exact seg_at_between. Qed.
 Print Assumptions seg_closest_in_box.
 
-Theorem tri_closest_in_bbox : forall a b c p,
+Theorem tri_closest_in_bbox_partial : forall a b c p,
   0 < dot (cross (vsub b a) (vsub c a)) (cross (vsub b a) (vsub c a)) ->
   coplanar a b c p = true -> tri_in_side a b c p = true -> inb p (tri_box a b c) = true.
 Proof. exact tri_in_side_in_bbox. Qed.
-Print Assumptions tri_closest_in_bbox.
+Print Assumptions tri_closest_in_bbox_partial.
 
 (* the pinned PointInSide (two sign tests) breaks that instance: it accepts a point of the plane
    outside the triangle's box (so the defect of DESIGN §5 entry 28 is in modeling/tri.go, not in the tree) *)
@@ -133,8 +206,9 @@ Proof. exact tri_point_in_side_refuted. Qed.
 Print Assumptions tri_point_in_side_pinned_refuted.
 
 (* BVH.  For any hierarchy whose node boxes contain the boxes below them (binv; implied by the node
-   boxes NewBVHTree computes: bvh_structure_ok), leaves whose hits lie in their own box, and lower
-   bound 0 (the recorded Distance is the hit parameter): BVHNode.Hit returns the same hit flag and the
+   boxes NewBVHTree computes: bvh_structure_ok, and every tree NewBVHTree builds: bvh_build_structure_ok), leaves whose hits lie in
+   their own box, any range [lo, hi], hit parameters absolute (the recorded Distance is the parameter
+   the upper bound is compared with — the repaired Triangle.Hit; for lo = 0 also the pinned one): BVHNode.Hit returns the same hit flag and the
    same nearest distance as HitList.Hit over any list with the same members — whatever the split axes
    were (ties: which of several equally near triangles is reported may differ). *)
 Theorem bvh_hit_eq_list : forall lbox tv dist ry lo,
@@ -146,6 +220,51 @@ Theorem bvh_hit_eq_list : forall lbox tv dist ry lo,
     same_answer (bhit tv dist ry lo t hi None) (list_hit tv dist l hi false None).
 Proof. exact bvh_hit_eq_list_thm. Qed.
 Print Assumptions bvh_hit_eq_list.
+
+(* NewBVHTree (model bvh_build: the rearrangement `srt` at each node — sort by the random axis, unstable —
+   is any permutation; one object: both children are it): every tree it can build satisfies binv and
+   holds exactly the given objects; it answers on every non-empty list given fuel >= the object count *)
+Theorem bvh_build_structure_ok : forall lbox srt,
+  (forall l, Permutation (srt l) l) ->
+  forall fuel objs t, bvh_build lbox srt fuel objs = Some t ->
+    binv lbox t /\ forall i, In i (leaves t) <-> In i objs.
+Proof. exact bvh_build_ok. Qed.
+Print Assumptions bvh_build_structure_ok.
+
+Theorem bvh_build_total : forall lbox srt,
+  (forall l, Permutation (srt l) l) ->
+  forall fuel objs, (length objs <= fuel)%nat -> objs <> [] -> exists t, bvh_build lbox srt fuel objs = Some t.
+Proof. exact bvh_build_some. Qed.
+Print Assumptions bvh_build_total.
+
+(* so BVHNode.Hit = HitList.Hit on EVERY tree the builder can produce, for every range [lo, hi]
+   (lo is arbitrary here and in bvh_hit_eq_list: tv / dist are absolute ray parameters) *)
+Theorem bvh_built_hit_eq_list : forall lbox srt tv dist ry lo,
+  (forall l, Permutation (srt l) l) ->
+  (forall i t, tv i = Some t -> (dist i == t)%Q) ->
+  (forall i t, tv i = Some t -> slab (lbox i) ry (lo, t) = true) ->
+  (forall i, wf_box (lbox i)) ->
+  forall fuel objs t hi,
+    bvh_build lbox srt fuel objs = Some t ->
+    same_answer (bhit tv dist ry lo t hi None) (list_hit tv dist objs hi false None).
+Proof. exact bvh_built_hit_eq_list_thm. Qed.
+Print Assumptions bvh_built_hit_eq_list.
+
+(* What the pinned Triangle.Hit does for lo <> 0: it accepts tv <= hi with tv measured from ray.At(lo) but
+   records dist = tv + lo.  Then every other hypothesis of bvh_hit_eq_list can hold and the two searches
+   still disagree, and BVHNode.Hit does not return the nearest hit (11/2 instead of 5): a genuine defect
+   for "nearest ray hit" (fixes/c16-tri-hit-max-offset; FailKey bvh:hit-max-measured-from-min). *)
+Theorem bvh_hit_min_offset_pinned_refuted :
+  exists (lbox : nat -> box) (tv : nat -> option Q) (dist : nat -> Q) (ry : ray) (lo hi : Q) (t : bvh) (l : list nat),
+    (forall i t0, tv i = Some t0 -> (dist i == t0 + lo)%Q) /\
+    (forall i t0, tv i = Some t0 -> slab (lbox i) ry (lo, t0 + lo)%Q = true) /\
+    (forall i, wf_box (lbox i)) /\
+    binv lbox t /\ (forall i, In i (leaves t) <-> In i l) /\
+    bhit tv dist ry lo t hi None = (true, Some (11 # 2)) /\
+    list_hit tv dist l hi false None = (true, Some 5%Q) /\
+    ~ same_answer (bhit tv dist ry lo t hi None) (list_hit tv dist l hi false None).
+Proof. exact bvh_hit_min_offset_refuted. Qed.
+Print Assumptions bvh_hit_min_offset_pinned_refuted.
 
 Theorem bvh_structure_ok : forall lbox t, bvh_wfb lbox t = true -> binv lbox t.
 Proof. exact bvh_wfb_binv. Qed.
